@@ -42,7 +42,7 @@ def strip_comments(src):
 
 
 # which machine-translated kernels a property's theorem file depends on (Proofs/Gen*.lean prove them equal to the hand model)
-GEN_KERNELS = {"C11": ["Rand"], "C03": ["Stream"], "C04": ["Stream"], "C17": ["Stream"], "C07": ["Utils", "Poly1305", "Blake2b", "SipHash", "Core"], "C09": ["Utils", "Argon2", "Pwhash"], "C10": ["Pwhash"], "C12": ["Utils", "Blake2b", "Curve"], "C18": ["Utils", "Blake2b", "SimdText"], "C05": ["Curve", "Kx"], "C13": ["Curve"],
+GEN_KERNELS = {"C01": ["Utils", "Poly1305"], "C02": ["Utils", "Poly1305"], "C11": ["Rand"], "C03": ["Stream"], "C04": ["Stream"], "C17": ["Stream"], "C07": ["Utils", "Poly1305", "Blake2b", "SipHash", "Core"], "C09": ["Utils", "Argon2", "Pwhash"], "C10": ["Pwhash"], "C12": ["Utils", "Blake2b", "Curve"], "C18": ["Utils", "Blake2b", "SimdText"], "C05": ["Curve", "Kx"], "C13": ["Curve"],
                "C14": ["Protected"], "C15": ["Protected"]}
 
 
@@ -144,7 +144,17 @@ RUNNER_CFG = {
     "stable": {"toolchain": None, "features": ["hooks"]},
     "nightly": {"toolchain": "+nightly", "features": ["hooks", "nightly"]},
     "simd": {"toolchain": "+nightly", "features": ["hooks", "nightly", "simd"]},
+    # the shipping profile (optimised, no overflow checks, no debug assertions): every stable-runner transcript is repeated on it
+    "release": {"toolchain": None, "features": ["hooks"], "release": True},
+    # optimised nightly build WITHOUT the hooks feature (the release observer's read would keep stores alive that the optimiser
+    # may otherwise delete): used by C15 with the free()-scan shim
+    "nightly-release": {"toolchain": "+nightly", "features": ["nightly"], "release": True},
 }
+# answers of the dev-profile and the release-profile runner that differ (filled by run_engine, turned into violations by conclude)
+RELEASE_DIFFS = []
+# requests whose answer legitimately differs between two runs (they use the OS generator without the entropy hook)
+PROFILE_DEPENDENT_OPS = {"rand", "box_seal_rt"}
+RELEASE_PASS = os.environ.get("VERIF_RELEASE", "1") != "0"
 
 
 def build_runner(cfg="stable"):
@@ -161,12 +171,19 @@ def build_runner(cfg="stable"):
         ENV["LLVM_PROFILE_FILE"] = os.path.join(cov, "prof", cfg + "-%p-%m.profraw")
     if c["features"]:
         cmd += ["--features", ",".join(c["features"])]
+    if c.get("release") and not cov:
+        cmd += ["--release"]
     with Lock("cargo-" + cfg):
         # Cargo.lock is a copy of /repo's; refresh if /repo's changed
         rc, out = sh(cmd, cwd=HARNESS, timeout=3000, env=env)
     if rc != 0:
-        raise BuildError("runner build (%s) failed:\n%s" % (cfg, out[-3000:]))
-    return os.path.join(tdir, "debug", "runner")
+        e = BuildError("runner build (%s) failed:\n%s" % (cfg, out[-3000:]))
+        # the crate itself compiled and only the runner (a client of its public API) did not: something the API offered is gone or
+        # changed its type — the correspondence cannot be run, which is reported as such (check.py), not as "nothing checked"
+        e.harness_only = ("could not compile `dryoc_verif_harness`" in out) and ("could not compile `dryoc`" not in out)
+        e.errors = re.findall(r"^error(?:\[E\d+\])?: [^\n]*(?:\n\s+--> [^\n]*)?", out, re.M)[:8]
+        raise e
+    return os.path.join(tdir, "release" if (c.get("release") and not cov) else "debug", "runner")
 
 
 class BuildError(Exception):
@@ -210,10 +227,20 @@ def _run_one(binary, args, env, lines, timeout, stall):
     return "".join(buf), (rc if rc is not None else p.returncode)
 
 
-def run_engine(binary, lines, env=None, nproc=NPROC, timeout=3000, args=(), stall=None):
+def run_engine(binary, lines, env=None, nproc=NPROC, timeout=3000, args=(), stall=None, _inner=False):
     """Feed request lines to `binary` split over nproc processes; return {id: [cols...]}."""
     if not lines:
         return {}
+    if RELEASE_PASS and not _inner and binary == os.path.join(HARNESS, "target-stable", "debug", "runner"):
+        # the same requests on the release-profile build: the implementation's answers must not depend on the profile
+        dev = run_engine(binary, lines, env=env, nproc=nproc, timeout=timeout, args=args, stall=stall, _inner=True)
+        rel = run_engine(build_runner("release"), lines, env=env, nproc=nproc, timeout=timeout, args=args, stall=stall, _inner=True)
+        byid = {l.split(" ", 1)[0]: l.split(" ", 1)[1] if " " in l else "" for l in lines}
+        for k, d in dev.items():
+            r = rel.get(k, ["missing"])
+            if d[0] != r[0] and byid.get(k, "").split(" ")[0] not in PROFILE_DEPENDENT_OPS:
+                RELEASE_DIFFS.append({"line": byid.get(k, ""), "dev": d[0][:3000], "release": r[0][:3000]})
+        return dev
     if stall is None:
         stall = float(os.environ.get("VERIF_STALL", "240"))
     n = max(1, min(nproc, len(lines) // 8 or 1))
@@ -360,6 +387,12 @@ def conclude(res, lean, **evkw):
     rc = 0
     reported = 0
     unknown = []
+    for d in RELEASE_DIFFS:
+        res.violations.append({"kind": "impl(release)!=impl(dev)", "line": d["line"], "answers": {"impl(dev profile)": d["dev"], "impl(release profile)": d["release"]},
+                               "why": "the implementation's answer depends on the build profile (optimised build without overflow checks / debug assertions vs the dev profile)"})
+    if RELEASE_PASS:
+        res.extra["release_profile_pass"] = "every stable-runner request repeated on the --release build; %d differing answers" % len(RELEASE_DIFFS)
+    del RELEASE_DIFFS[:]
     for v in res.violations:
         k = match_known(res.prop, v["line"], v["kind"])
         if k:
